@@ -662,6 +662,15 @@ def __parse_header(
                     line,
                     line_str,
                 )
+            if arg_tokens[0].string == config.namespace:
+                # `foo` and `<namespace>.foo` would be two names of one file
+                raise HeaderSyntaxException(
+                    f"Namespace '{arg_tokens[0].string}' is the namespace of this datapack, it cannot be overridden.",
+                    file_name,
+                    line,
+                    line_str,
+                    suggestion=f"Names of this datapack are written without the '{arg_tokens[0].string}.' prefix",
+                )
             header.namespace_overrides.add(arg_tokens[0].string)
 
         # #override
